@@ -220,6 +220,24 @@ def bounded(ctx):
                         break
             if len(samples) < 3:
                 samples.append(dict(enzyme=name, geometry=[len(site), a, k], chain=chain_len, product_length=len(expected)))
+    # modules wrapped by signature-typed PART classes (a degenerate letter / a wildcard side in the signature) instead of
+    # generic module classes: the same formula, at every rotation of the first part
+    tp = ba.typed_part_scenario(ns, rng)
+    if tp is not None:
+        want_ = "".join(tp["frags"]) + tp["vfrag"]
+        c0_, t0_ = tp["parts"][0]
+        for r_ in range(len(t0_)):
+            evals += 1
+            vec_ = tp["vec_cls"](CircularRecord(Seq(tp["vtext"]), id="v"))
+            ms_ = [c0_(CircularRecord(Seq(t0_[r_:] + t0_[:r_]), id="p0"))] + [c_(CircularRecord(Seq(t_), id="p%d" % i_)) for i_, (c_, t_) in enumerate(tp["parts"][1:], 1)]
+            got_, prod_, _ = ba.run_assembly(vec_, ms_)
+            distinct.add(("typed-parts", r_))
+            if got_[0] != "product" or not ba.is_rotation(str(prod_.seq), want_):
+                viol.append(dict(name="typed_parts", what="modules typed by part classes (signatures GGAS/TACT, TACT/NNNN; overhangs %r), first part rotated by %d: %s" % (
+                    tp["overhangs"], r_, "ended with %r" % (got_[:2],) if got_[0] != "product" else "product is not the documented one"),
+                                 case=dict(vector=tp["vtext"], parts=[t_ for _, t_ in tp["parts"]], rotation=r_), expected=want_,
+                                 observed=str(prod_.seq) if prod_ is not None else list(got_)))
+                break
     # the shared scenarios: this property's oracle over the cross product of the unusual input dimensions
     from bounded import scenarios as sn
     n_sw, d_sw, v_sw = sn.sweep(ctx, ns, 'sequence')
